@@ -42,6 +42,8 @@ FORMS = [
     ("MSG m %s", ("x",)),
     ("MSG %d+%s", (1, "y")),
     ("MSG %(k)s", ({"k": 1},)),
+    # a mapping argument whose keys are named like attributes of a log record
+    ("MSG %(name)s said %(message)s in %(module)s", ({"name": "bob", "message": "hi", "module": "m", "args": 1, "levelname": "x"},)),
     ("MSG {} {x} {0", ()),  # braces are ordinary characters for %-style logging
     ("MSG {0} %s }", ("x",)),
     ("MSG 100% sure", ()),  # no arguments: logging does not format, '%' stays literal
